@@ -78,7 +78,13 @@ def gen_inlines(rng, depth=0, in_link=False, in_em=False, in_strong=False, allow
         elif r < 0.95 and not NO_ESC[0]:
             # inside emphasis / links an escaped backtick or '<' followed by a later code span / tag trips mistune's
             # precedence scan (known finding, see known_findings.json): not generated there
-            node = ("esc", rng.choice([c for c in ESC if c not in "`<"] if (in_em or in_strong or in_link) else ESC))
+            allowed = [c for c in ESC if c not in "`<"] if (in_em or in_strong or in_link) else ESC
+            node = ("esc", rng.choice(allowed))
+            if rng.random() < 0.35:
+                # a run of escapes: an escaped backslash directly followed by an escaped delimiter (`\\\*` is a literal backslash and a
+                # literal star), also in the middle of emphasis, where the closing-delimiter search must skip it
+                out.append(("esc", "\\"))
+                node = ("esc", rng.choice([c for c in "*_" if c in allowed] + [rng.choice(allowed)]))
         else:
             node = ("text", gen_words(rng))
         out.append(node)
